@@ -598,3 +598,54 @@ spec!(
     forms(p, v): [p.push(v.as_slice())],
     reserve(rp, vs): [],
 );
+
+// ---------------------------------------------------------------------------------------------
+// Collapse at depth and their wrapper-free twins (C11)
+// ---------------------------------------------------------------------------------------------
+
+spec!(
+    TupCollapse, "TupleABCRegion<MirrorRegion<u64>,CollapseSequence<OwnedRegion<()>>,CollapseSequence<StringRegion>>",
+    TupleABCRegion<MirrorRegion<u64>, CollapseSequence<OwnedRegion<()>>, CollapseSequence<StringRegion>>,
+    clone: yes, serde: yes, heap: yes, resreg: yes, copy: yes, debug: no,
+    dense: no, collapse_top: no, presize: no, plain: yes,
+    byref(x): x,
+    forms(p, v): [p.push(v), p.push(v.clone()), p.push((v.0, v.1.as_slice(), v.2.as_str())), p.push((&v.0, &v.1, &v.2))],
+    reserve(rp, vs): [],
+);
+
+spec!(
+    TupPlain, "TupleABCRegion<MirrorRegion<u64>,OwnedRegion<()>,StringRegion>",
+    TupleABCRegion<MirrorRegion<u64>, OwnedRegion<()>, StringRegion>,
+    clone: yes, serde: yes, heap: yes, resreg: yes, copy: yes, debug: no,
+    dense: no, collapse_top: no, presize: yes, plain: yes,
+    byref(x): x,
+    forms(p, v): [p.push(v), p.push(v.clone()), p.push((v.0, v.1.as_slice(), v.2.as_str())), p.push((&v.0, &v.1, &v.2))],
+    reserve(rp, vs): [rp.reserve_items(vs.iter())],
+);
+
+spec!(
+    ColsCollapseStr, "ColumnsRegion<CollapseSequence<StringRegion>>", ColumnsRegion<CollapseSequence<StringRegion>>,
+    clone: yes, serde: yes, heap: yes, resreg: yes, copy: yes, debug: yes,
+    dense: yes, collapse_top: no, presize: no, plain: yes,
+    byref(x): x,
+    forms(p, v): [p.push(v), p.push(v.clone()), p.push(v.as_slice()), p.push(PushIter(v.iter())), p.push(v.iter().map(|s| s.as_str()).collect::<Vec<&str>>())],
+    reserve(rp, vs): [],
+);
+
+spec!(
+    ColsStr, "ColumnsRegion<StringRegion>", ColumnsRegion<StringRegion>,
+    clone: yes, serde: yes, heap: yes, resreg: yes, copy: yes, debug: yes,
+    dense: yes, collapse_top: no, presize: no, plain: yes,
+    byref(x): x,
+    forms(p, v): [p.push(v), p.push(v.clone()), p.push(v.as_slice()), p.push(PushIter(v.iter())), p.push(v.iter().map(|s| s.as_str()).collect::<Vec<&str>>())],
+    reserve(rp, vs): [],
+);
+
+spec!(
+    SliceCollapseStr, "SliceRegion<CollapseSequence<StringRegion>>", SliceRegion<CollapseSequence<StringRegion>>,
+    clone: yes, serde: yes, heap: yes, resreg: yes, copy: yes, debug: yes,
+    dense: no, collapse_top: no, presize: no, plain: yes,
+    byref(x): x,
+    forms(p, v): [p.push(v), p.push(v.clone()), p.push(v.as_slice()), p.push(v.iter().map(|s| s.as_str()).collect::<Vec<&str>>())],
+    reserve(rp, vs): [],
+);
